@@ -27,7 +27,7 @@ class Exec:
         s.mem = {}; s.trail = []
         s.abase = []; s.ainfo = []          # heap+stack allocations: parallel sorted lists (base) / [size, live, kind, site]
         s.heap = HEAP_BASE; s.stack = STACK_BASE
-        s.ginit = set()
+        s.ginit = set(); s.known = {}
         s.solver = z3.Solver(); s.solver.set('timeout', s.B['solver_ms']); s.scope = 0
         s.nond = []; s.events = []; s.dec = []
         s.frames = []; s.steps = 0
@@ -205,6 +205,7 @@ class Exec:
             elif k == 'live':
                 i = bisect.bisect_left(s.abase, e[1]); s.ainfo[i][1] = e[2]
             elif k == 'ginit': s.ginit.discard(e[1])
+            elif k == 'known': s.known.pop(e[1], None)
         s.frames[:] = sn.frames; s.heap = sn.heap; s.stack = sn.stack
         del s.nond[sn.nnond:]; del s.events[sn.nevents:]; del s.dec[sn.ndec:]; del s.out[sn.nout:]
         while s.scope > sn.scope: s.solver.pop(); s.scope -= 1
@@ -229,6 +230,33 @@ class Exec:
         lab, c = feas[0]
         s._note_dec(); s.dec.append(lab); s.add(c)
         return lab
+
+    def decide_bool(s, c1):
+        """branch on a 1-bit value.  Every symbolic branch records one decision entry (also when only one side is feasible,
+        so that replays from a prefix stay aligned); the outcome is remembered per condition (hash-consed AST) so that the
+        same comparison evaluated again on this path costs neither a solver query nor an entry."""
+        b = z3.simplify(c1 == 1)
+        if z3.is_true(b): return True
+        if z3.is_false(b): return False
+        neg = False
+        if z3.is_not(b): b = b.arg(0); neg = True
+        k = b.get_id(); kn = s.known.get(k)
+        if kn is not None:
+            s.stats['known_hits'] += 1
+            return kn[1] != neg
+        nb = z3.Not(b); kdec = len(s.dec)
+        if kdec < len(s.prefix):
+            r = bool(s.prefix[kdec])
+        else:
+            if s.split_depth is not None and kdec >= s.split_depth: raise PathEnd('split')
+            ft = s.feasible(b); ff = s.feasible(nb)
+            if ft and ff: s.save.append(s.snapshot(False)); r = True
+            elif ft: r = True
+            elif ff: r = False
+            else: raise PathEnd('infeasible')
+        s._note_dec(); s.dec.append(r); s.add(b if r else nb)
+        s.known[k] = (b, r); s.trail.append(('known', k))
+        return r != neg
 
     def concretize(s, v, what='value'):
         if is_c(v): return v
@@ -365,7 +393,7 @@ class Exec:
                 if type(c) is int: t = ins[2] if c & 1 else ins[3]
                 else:
                     s.stats['sym_branches'] += 1
-                    t = s.decide([(ins[2], c == 1), (ins[3], c == 0)])
+                    t = ins[2] if s.decide_bool(c) else ins[3]
                 s.goto(f, t)
             elif op == 'call':
                 _, dst, callee, cargs, normal, unwind, isvoid = ins
